@@ -17,7 +17,7 @@ Record case03 := mkC3 {
   k3_keys : list bytes;
   k3_threads : list thread03;
   k3_sched : list (nat * bool);              (* model-level schedule: (thread, panic?) *)
-  k3_grants : list (N * N * bool);           (* lock grants in order: thread, lock index, exclusive *)
+  k3_grants : list (N * N * bool * bool);    (* lock events in order: thread, lock index, exclusive, release? *)
   k3_l1 : list (bytes * entry); k3_l2 : list (bytes * entry) }.
 
 Notation st3 := (state cell sres).
@@ -55,12 +55,27 @@ Fixpoint regroup (now : N) (k : orcakind) (reqs : list req) (xs : list sres) : l
                firstn n xs :: regroup now k rr (skipn n xs)
   end.
 
-Definition grants_of (slot_of : bytes -> N) (multi : bool) (ls : list (label cell sres)) : list (N * N * bool) :=
+(* lock events of an execution: every acquisition and every release, in order. A panic inside
+   a section also releases (deferred Unlock): the section of the panicking thread is found in
+   the state before the panic, which the label list does not carry, so a panic's release is
+   reported by the harness only and dropped from the comparison on both sides. *)
+Definition grants_of (slot_of : bytes -> N) (multi : bool) (ls : list (label cell sres)) : list (N * N * bool * bool) :=
   flat_map (fun l => match l with
-                     | LAcquire _ _ t s => [(N.of_nat t, slot_of (s_key s), exclusive cell sres multi s)]
+                     | LAcquire _ _ t s => [(N.of_nat t, slot_of (s_key s), exclusive cell sres multi s, false)]
+                     | LRelease _ _ t s _ => [(N.of_nat t, slot_of (s_key s), exclusive cell sres multi s, true)]
                      | _ => [] end) ls.
-Definition grant_eqb (a b : N * N * bool) : bool :=
-  let '(t, s, e) := a in let '(t', s', e') := b in (t =? t') && (s =? s') && Bool.eqb e e'.
+Definition grant_eqb (a b : N * N * bool * bool) : bool :=
+  let '(t, s, e, r) := a in let '(t', s', e', r') := b in (t =? t') && (s =? s') && Bool.eqb e e' && Bool.eqb r r'.
+(* threads that panicked: their last release (if any) is the deferred unlock of the panic *)
+Definition panicked (ls : list (label cell sres)) : list nat :=
+  flat_map (fun l => match l with LPanic _ _ t => [t] | _ => [] end) ls.
+Fixpoint drop_last_release (t : N) (evs : list (N * N * bool * bool)) : list (N * N * bool * bool) :=
+  match evs with
+  | [] => []
+  | e :: r => let '(t', _, _, rel) := e in
+              if (t' =? t) && rel && negb (existsb (fun x => let '(t2, _, _, rel2) := x in (t2 =? t) && rel2) r)
+              then r else e :: drop_last_release t r
+  end.
 
 Definition cell_store (st : st3) (which : bool) : store :=
   fun k => let c := cells cell sres st k in if which then snd c else fst c.
@@ -90,7 +105,10 @@ Definition check03 (mode : N) (c : case03) : N :=
         forallb (fun x => let '(t, th) := x in
                    list_eqb bytes_eqb (replies_of now (th_kind th) (th_reqs th) (thread_done cell sres st t)) (th_replies th) &&
                    Bool.eqb (th_closed th) (match thr cell sres st t with TDead _ _ _ => true | _ => false end)) ths &&
-        (if k3_locking c then list_eqb grant_eqb (grants_of slot_of (k3_multi c) ls) (k3_grants c) else true) &&
+        (if k3_locking c then
+           list_eqb grant_eqb (grants_of slot_of (k3_multi c) ls)
+                    (fold_left (fun evs t => drop_last_release (N.of_nat t) evs) (panicked ls) (k3_grants c))
+         else true) &&
         (if one then stores_agree now (k3_keys c) (cell_store st true) (of_dump (k3_l1 c))
          else stores_agree now (k3_keys c) (cell_store st false) (of_dump (k3_l1 c)) &&
               stores_agree now (k3_keys c) (cell_store st true) (of_dump (k3_l2 c))) in
